@@ -74,8 +74,9 @@ def boolStr (b : Bool) : String := if b then "true" else "false"
 def mk (m s sig : String) : Proto.Out := { model := m, spec := s, sig := if m == s then "-" else sig }
 
 /-- laws of a pair: eq ⇒ equal hash feed; cmp = Equal ⇔ eq; eq symmetric; cmp antisymmetric -/
-def pairVerdict (eqab eqba : Bool) (cmpab cmpba : Option Ordering) (hashEq : Bool) : String :=
-  if eqab != eqba then "eq-not-symmetric"
+def pairVerdict (same : Bool) (eqab eqba : Bool) (cmpab cmpba : Option Ordering) (hashEq : Bool) : String :=
+  if same && !eqab then "eq-not-reflexive"
+  else if eqab != eqba then "eq-not-symmetric"
   else if eqab && !hashEq then "eq-but-hash-differs"
   else match cmpab, cmpba with
     | some x, some y =>
@@ -94,7 +95,7 @@ def handle (args : List String) : Option Proto.Out :=
   | ["of.law", a, b] => do
     let a ← hexNat a
     let b ← hexNat b
-    let v := pairVerdict (ofEq a b) (ofEq b a) (some (ofCmp a b)) (some (ofCmp b a)) (ofHashFeed a == ofHashFeed b)
+    let v := pairVerdict (a == b) (ofEq a b) (ofEq b a) (some (ofCmp a b)) (some (ofCmp b a)) (ofHashFeed a == ofHashFeed b)
     pure (mk v "ok" ("ordered-float-" ++ v))
   | ["of.trans", a, b, c] => do
     let a ← hexNat a
@@ -108,10 +109,10 @@ def handle (args : List String) : Option Proto.Out :=
   | ["ov.cmp", a, b] => do
     pure { model := ordStr (ovCmp (← toOV (← parseHV a.toList)) (← toOV (← parseHV b.toList))) }
   | ["ov.hash", a] => do pure { model := feedStr (ovHashFeed (← toOV (← parseHV a.toList))) }
-  | ["ov.law", a, b] => do
-    let a ← toOV (← parseHV a.toList)
-    let b ← toOV (← parseHV b.toList)
-    let v := pairVerdict (ovEq a b) (ovEq b a) (some (ovCmp a b)) (some (ovCmp b a)) (ovHashFeed a == ovHashFeed b)
+  | ["ov.law", ta, tb] => do
+    let a ← toOV (← parseHV ta.toList)
+    let b ← toOV (← parseHV tb.toList)
+    let v := pairVerdict (ta == tb) (ovEq a b) (ovEq b a) (some (ovCmp a b)) (some (ovCmp b a)) (ovHashFeed a == ovHashFeed b)
     pure (mk v "ok" ("orderable-" ++ v))
   | ["ov.trans", a, b, c] => do
     let a ← toOV (← parseHV a.toList)
@@ -122,10 +123,10 @@ def handle (args : List String) : Option Proto.Out :=
     pure (mk v "ok" ("orderable-" ++ v))
   | ["hv.eq", a, b] => do pure { model := boolStr (hvEq (← parseHV a.toList) (← parseHV b.toList)) }
   | ["hv.hash", a] => do pure { model := feedStr (hvFeed (← parseHV a.toList)) }
-  | ["hv.law", a, b] => do
-    let a ← parseHV a.toList
-    let b ← parseHV b.toList
-    let v := pairVerdict (hvEq a b) (hvEq b a) none none (hvFeed a == hvFeed b)
+  | ["hv.law", ta, tb] => do
+    let a ← parseHV ta.toList
+    let b ← parseHV tb.toList
+    let v := pairVerdict (ta == tb) (hvEq a b) (hvEq b a) none none (hvFeed a == hvFeed b)
     pure (mk v "ok" ("hashable-" ++ v))
   | _ => none
 
